@@ -94,7 +94,7 @@ def _calls(node):
 
 @register
 class GroupingStructure(Contract):
-    """Structural obligations (facts about the current AST): aggregate, split and the grouped branch of modify are built from
+    """Structural premises (facts about the current AST; Harness.premise): aggregate, split and the grouped branch of modify are built from
     the pieces whose contracts carry C04 - sort ascending by exactly the group columns, unique on the same columns, np.arange
     row ids, np.split at the kept rows' ids (first one dropped) - and count is aggregate with dataiter.count()."""
     file, qualname, prop, variant = F, "DataFrame.split", "C04", "structure of aggregate / split / count / grouped modify"
@@ -107,17 +107,39 @@ class GroupingStructure(Contract):
         mod = RepoModule.load(F, cx.it.repo)
         src = {q: _calls(mod.find("DataFrame." + q)[0]) for q in ("aggregate", "split", "count", "modify")}
         has = lambda q, text: any(text in u.replace(" ", "") for _, u in src[q])
-        cx.prove("aggregate sorts ascending by exactly the group columns", has("aggregate", "self.sort(**dict.fromkeys(_,1))"))
-        cx.prove("aggregate numbers the sorted rows", has("aggregate", "np.arange(_.nrow)"))
-        cx.prove("aggregate keeps the first row of every group key", has("aggregate", "_.unique(*_)"))
-        cx.prove("aggregate cuts the sorted rows at the kept rows", has("aggregate", "np.split(_._index_,_._index_[1:])"))
-        cx.prove("aggregate hands whole-row views of each piece to plain functions", has("aggregate", "_._view_rows(_)"))
-        cx.prove("aggregate labels rows with their piece number for group-aware helpers", has("aggregate", "np.repeat(_,_)"))
-        cx.prove("split numbers the rows before sorting", has("split", "np.arange(_.nrow)") and has("split", "_.sort(**dict.fromkeys(_,1))"))
-        cx.prove("split cuts the original row ids at the first row of every key", has("split", "_.unique(*_)")
+        # premises of the modular argument (pieces + partition lemma), not obligations of the property: when the body of one of these
+        # methods is restructured, the method is decided by its bounded run-time contract (every tier) - and, for split, by the
+        # deductive contract below, which executes the real body
+        cx.premise("aggregate sorts ascending by exactly the group columns", has("aggregate", "self.sort(**dict.fromkeys(_,1))"))
+        cx.premise("aggregate numbers the sorted rows", has("aggregate", "np.arange(_.nrow)"))
+        cx.premise("aggregate keeps the first row of every group key", has("aggregate", "_.unique(*_)"))
+        cx.premise("aggregate cuts the sorted rows at the kept rows", has("aggregate", "np.split(_._index_,_._index_[1:])"))
+        cx.premise("aggregate hands whole-row views of each piece to plain functions", has("aggregate", "_._view_rows(_)"))
+        cx.premise("aggregate labels rows with their piece number for group-aware helpers", has("aggregate", "np.repeat(_,_)"))
+        cx.premise("split numbers the rows before sorting", has("split", "np.arange(_.nrow)") and has("split", "_.sort(**dict.fromkeys(_,1))"))
+        cx.premise("split cuts the original row ids at the first row of every key", has("split", "_.unique(*_)")
                  and has("split", "np.split(_._index_,_._sorted_index_[1:])"))
-        cx.prove("count is aggregate with dataiter.count() on a copy", has("count", "self.copy().group_by(*_).aggregate(n=dataiter.count())"))
-        cx.prove("grouped modify uses split for the partition", has("modify", "self.split(*self._group_colnames)") or has("modify", ".split("))
+        cx.premise("count is aggregate with dataiter.count() on a copy", has("count", "self.copy().group_by(*_).aggregate(n=dataiter.count())"))
+        cx.premise("grouped modify uses split for the partition", has("modify", "self.split(*self._group_colnames)") or has("modify", ".split("))
+
+
+@register
+class GroupByDF(Contract):
+    """group_by records the group columns exactly as given - same names, same order, nothing dropped or reordered into frame order -
+    on the receiver itself, and touches no column: aggregate / count / split order their result by these columns in THIS order."""
+    file, qualname, prop, variant = F, "DataFrame.group_by", "C04", "group columns recorded in the order given"
+    callees = {}
+
+    def setup(self, cx):
+        from contracts.data_frame import conc_frame
+        return {"self": conc_frame(cx, "self", ["a", "b", "c"]), "args": ["c", "a"]}
+
+    def ensures(self, cx, result):
+        f = cx.inputs["self"]
+        cx.prove("returns-the-receiver", result is f)
+        cx.prove("group columns = the names given, in the order given", f.attrs.get("_group_colnames") == ("c", "a"))
+        segs = f.base.segs
+        cx.prove("frame: the columns are untouched", [e.key_py for e in segs] == ["a", "b", "c"] and all(e.value is c for e, c in zip(segs, f.conc["cols"])))
 
 
 _WHY = ("composition of sort / unique / np.split / np.repeat / per-group callbacks over lists of index vectors: not executed symbolically; "
